@@ -168,7 +168,7 @@ TIES = {
                 args=["-module", "GoTxZ", "-skipfiles", "verif_on.go,verif_dump.go",
                       "-imports", "github.com/xujiajun/nutsdb/ds/list=%s/generated/GoList.json,github.com/xujiajun/nutsdb/ds/set=%s/generated/GoSet.json,"
                                   "github.com/xujiajun/nutsdb/ds/zset=%s/generated/GoZSet.json" % (COQ, COQ, COQ),
-                      "-only", "Tx.checkTxIsClosed,Tx.put,Tx.ZRem,Tx.ZRemRangeByRank"]),
+                      "-only", "Tx.checkTxIsClosed,Tx.put,Tx.ZRem,Tx.ZRemRangeByRank,Tx.ZMembers,Tx.ZCard"]),
     "tx": dict(dir=".", gen="generated/GoTx.v", chain=["gosem/GoTxFacts.v"], deps=["list", "set"],
                args=["-module", "GoTx", "-skipfiles", "verif_on.go,verif_dump.go",
                      "-imports", "github.com/xujiajun/nutsdb/ds/list=%s/generated/GoList.json,github.com/xujiajun/nutsdb/ds/set=%s/generated/GoSet.json" % (COQ, COQ),
